@@ -621,7 +621,7 @@ def decode_inst(E, m, fc, toks, bi, slot, operand, lidx, mk_jump, zero_of):
                 call(st, fr, name, a, d)
                 return True
             call(st, fr, callee, a, d)
-            return True if in_module else None
+            return True if (in_module or st.frames[-1] is not fr) else None
         return f
     if op == 'va_arg':
         def f(st, fr, R): raise EngineLimit('va_arg')
